@@ -142,5 +142,5 @@ def check_mix(ctx, case):
 
 
 FAMILIES = [
-    Family('mixtures', lambda ctx, case: check_mix(ctx, case), strategy=lambda tier: mix_case(), n=(1600, 200000)),
+    Family('mixtures', lambda ctx, case: check_mix(ctx, case), strategy=lambda tier: mix_case(), n=(4000, 200000)),
 ]
